@@ -12,6 +12,7 @@ package c05
 //	14 wasm contract W (a 32-byte bank address)  15 PH = the 20-byte account made of the last 20 bytes of W
 //	16 the EVM module account (SetAccBalance mints to it / burns from it)  17 script contract Z
 //	18 the x/distribution module account (the bank refuses to credit it, like 1 and 16)
+//	19 RW = an instance of reflect.wasm owned by Z (a 32-byte bank address, no EVM account)
 //
 // plus tx code, VmError flag and MsgEthereumTxResponse.GasUsed (EventEthereumTx.gas_used).
 //
@@ -24,6 +25,9 @@ package c05
 // blocks), calls of the FunToken precompile (whoAmI / bankMsgSend) and calls of itself with a sub-script (a call frame
 // that ends in STOP or REVERT); the results of all CALLs are ignored.  A transfer to a blocked module account followed
 // by a precompile call in the same live frame makes the pre-precompile flush (CommitCacheCtx) fail half-way.
+// Z also calls the Wasm precompile: execute(RW, reflect_msg{msgs}, funds) moves `funds` unibi Z -> RW and lets RW dispatch
+// bank MsgSend of unibi and/or an evm MsgConvertCoinToEvm of unibi (a FunToken mapping for unibi exists) - the latter is
+// REFUSED inside a running EVM state transition (fix 8031c94), i.e. the whole precompile call fails without effect.
 
 import (
 	"os"
@@ -31,6 +35,7 @@ import (
 	wasmkeeper "github.com/CosmWasm/wasmd/x/wasm/keeper"
 	wasm "github.com/CosmWasm/wasmd/x/wasm/types"
 
+	"encoding/base64"
 	"encoding/hex"
 	"encoding/json"
 	"math/big"
@@ -41,7 +46,10 @@ import (
 
 	sdkmath "cosmossdk.io/math"
 	abci "github.com/cometbft/cometbft/abci/types"
+	"github.com/cosmos/cosmos-sdk/crypto/keys/secp256k1"
 	authtypes "github.com/cosmos/cosmos-sdk/x/auth/types"
+	banktypes "github.com/cosmos/cosmos-sdk/x/bank/types"
+	"github.com/cosmos/gogoproto/proto"
 	distrtypes "github.com/cosmos/cosmos-sdk/x/distribution/types"
 	codectypes "github.com/cosmos/cosmos-sdk/codec/types"
 	sdk "github.com/cosmos/cosmos-sdk/types"
@@ -88,7 +96,10 @@ type c05Tx struct {
 
 // one step of a script of contract Z
 type c05ZStep struct {
-	Op   string     `json:"op"`   // t: CALL `to` with `w` wei | p: call the FunToken precompile | f: call itself with `body`
+	Op   string     `json:"op"`   // t: CALL `to` with `w` wei | p: call the FunToken precompile | f: call itself with `body` | w: Wasm.execute(RW, ...)
+	Funds string    `json:"funds"` // w: unibi attached as funds (Z -> RW)
+	Sends []c05ZStep `json:"sends"` // w: bank MsgSend{RW -> to, w unibi} dispatched by RW, in order
+	Conv  string    `json:"conv"`  // w: non-empty: RW also dispatches MsgConvertCoinToEvm{conv unibi -> ERC20 for R}
 	To   string     `json:"to"`   // t, p: B | R | S (signer) | X | DIST (x/distribution) | FC (fee collector)
 	W    string     `json:"w"`    // t: wei ; p: unibi of bankMsgSend
 	Q    bool       `json:"q"`    // p: whoAmI (a query) instead of bankMsgSend
@@ -176,6 +187,7 @@ type c05World struct {
 	dnonce   uint64
 	X, Y, D, F, Z gethcommon.Address
 	W        sdk.AccAddress // wasm counter contract (32-byte address)
+	RW       sdk.AccAddress // reflect.wasm owned by Z
 	salt     int64
 	xAlive   bool
 	B2, C3   gethcommon.Address
@@ -231,8 +243,52 @@ func newC05World(t *testing.T) *c05World {
 	if err != nil {
 		t.Fatal(err)
 	}
+	// a FunToken mapping for unibi (so that a nested MsgConvertCoinToEvm of unibi would find one) ...
+	c.App.BankKeeper.SetDenomMetaData(c.Ctx(), banktypes.Metadata{
+		DenomUnits: []*banktypes.DenomUnit{{Denom: "unibi", Exponent: 0}, {Denom: "NIBI", Exponent: 6}}, Base: "unibi", Display: "NIBI", Name: "NIBI", Symbol: "NIBI"})
+	creator := secp256k1.GenPrivKey()
+	cAddr := sdk.AccAddress(creator.PubKey().Address())
+	if err := c.Fund(cAddr, Unibi(1e12)); err != nil {
+		t.Fatal(err)
+	}
+	if r := c.DeliverCosmos(creator, 8_000_000, Unibi(8_000_000), &evm.MsgCreateFunToken{FromBankDenom: "unibi", Sender: cAddr.String()}); r.Code != 0 {
+		t.Fatalf("create funtoken unibi: %s", r.Log)
+	}
+	if r := c.DeliverCosmos(creator, 8_000_000, Unibi(8_000_000), &evm.MsgConvertCoinToEvm{Sender: cAddr.String(), BankCoin: sdk.NewInt64Coin("unibi", 1000),
+		ToEthAddr: eth.EIP55Addr{Address: eth.NibiruAddrToEthAddr(cAddr)}}); r.Code != 0 {
+		t.Fatalf("escrow unibi: %s", r.Log)
+	}
+	// ... and an instance of reflect.wasm whose owner is contract Z
+	reflectCode, err := os.ReadFile(repo + "/x/devgas/v1/keeper/testdata/reflect.wasm")
+	if err != nil {
+		t.Fatal(err)
+	}
+	rid, _, err := pk.Create(c.Ctx(), w.deployer.NibiruAddr, reflectCode, &wasm.AccessConfig{Permission: wasm.AccessTypeEverybody})
+	if err != nil {
+		t.Fatal(err)
+	}
+	zOwner := eth.EthAddrToNibiruAddr(w.Z)
+	w.RW, _, err = pk.Instantiate(c.Ctx(), rid, zOwner, zOwner, []byte(`{}`), "reflect", sdk.Coins{})
+	if err != nil {
+		t.Fatal(err)
+	}
+	if err := c.Fund(w.RW, Unibi(5000)); err != nil {
+		t.Fatal(err)
+	}
 	c.EndBlock()
 	return w
+}
+
+func c05ReflectPayload(msgs ...sdk.Msg) []byte {
+	var parts []string
+	for _, m := range msgs {
+		bz, err := proto.Marshal(m)
+		if err != nil {
+			panic(err)
+		}
+		parts = append(parts, `{"stargate":{"type_url":"`+sdk.MsgTypeURL(m)+`","value":"`+base64.StdEncoding.EncodeToString(bz)+`"}}`)
+	}
+	return []byte(`{"reflect_msg":{"msgs":[` + strings.Join(parts, ",") + `]}}`)
 }
 
 func (w *c05World) bal(a gethcommon.Address) *big.Int {
@@ -468,6 +524,8 @@ func (w *c05World) runCase(t *testing.T, cs c05Case) ([]c05Der, []c05Obs) {
 						return from.EthAddr
 					case "X":
 						return w.X
+					case "Z":
+						return w.Z
 					case "DIST":
 						return dist
 					case "FC":
@@ -499,6 +557,28 @@ func (w *c05World) runCase(t *testing.T, cs c05Case) ([]c05Der, []c05Obs) {
 							} else {
 								payload, err = embeds.SmartContract_FunToken.ABI.Pack("bankMsgSend", eth.EthAddrToNibiruAddr(zaddr(st.To)).String(), "unibi", bigOf(st.W))
 							}
+							if err != nil {
+								t.Fatal(err)
+							}
+						case "w":
+							addr = precompile.PrecompileAddr_Wasm
+							g = 1_500_000
+							var msgs []sdk.Msg
+							for _, sd := range st.Sends {
+								// built by hand: sdk.NewCoins would drop a zero amount
+								msgs = append(msgs, &banktypes.MsgSend{FromAddress: w.RW.String(), ToAddress: eth.EthAddrToNibiruAddr(zaddr(sd.To)).String(),
+									Amount: sdk.Coins{sdk.Coin{Denom: "unibi", Amount: sdkmath.NewIntFromBigInt(bigOf(sd.W))}}})
+							}
+							if st.Conv != "" {
+								msgs = append(msgs, &evm.MsgConvertCoinToEvm{Sender: w.RW.String(), BankCoin: sdk.Coin{Denom: "unibi", Amount: sdkmath.NewIntFromBigInt(bigOf(st.Conv))},
+									ToEthAddr: eth.EIP55Addr{Address: R}})
+							}
+							funds := []precompile.WasmBankCoin{}
+							if f := bigOf(st.Funds); f.Sign() > 0 {
+								funds = append(funds, precompile.WasmBankCoin{Denom: "unibi", Amount: f})
+							}
+							var err error
+							payload, err = embeds.SmartContract_Wasm.ABI.Pack("execute", w.RW.String(), c05ReflectPayload(msgs...), funds)
 							if err != nil {
 								t.Fatal(err)
 							}
@@ -642,7 +722,7 @@ func (w *c05World) runCase(t *testing.T, cs c05Case) ([]c05Der, []c05Obs) {
 				out = append(out, w.bal(a).String())
 			}
 			out = append(out, w.balNibi(w.W).String(), w.bal(gethcommon.BytesToAddress(w.W.Bytes())).String())
-			out = append(out, w.bal(evmMod).String(), w.bal(w.Z).String(), w.bal(dist).String())
+			out = append(out, w.bal(evmMod).String(), w.bal(w.Z).String(), w.bal(dist).String(), w.balNibi(w.RW).String())
 			return out, c.App.BankKeeper.GetSupply(c.Ctx(), "unibi").Amount.String()
 		}
 		o.Before, o.SupplyB = snap()
@@ -786,9 +866,28 @@ func genC05Z(r *Rng) ([]c05ZStep, bool) {
 	amtWei := func() string {
 		return pickStr(r, "1000000000000", "3000000000000", "999999999999", "2000000000005", "1000000000000000000", "7000000000000", "5000000000000000000000")
 	}
+	wasmx := func(conv bool) c05ZStep { // Wasm.execute(RW, reflect_msg{bank sends, maybe a refused evm message}, funds)
+		st := c05ZStep{Op: "w", Funds: pickStr(r, "0", "5", "40", "50", "99999999999")}
+		n := r.Pick(3, 4, 2)
+		if n == 0 && !conv && r.Chance(5, 6) {
+			n = 1 // reflect.wasm rejects an empty message list: the call fails (kept as a rare shape)
+		}
+		for i := 0; i < n; i++ {
+			st.Sends = append(st.Sends, c05ZStep{To: pickStr(r, "B", "R", "S", "Z", "Z", "DIST"), W: pickStr(r, "1", "7", "30", "44", "0", "99999999")})
+		}
+		if conv {
+			st.Conv = pickStr(r, "100", "5", "1")
+		}
+		return st
+	}
 	pre := func() c05ZStep {
-		if r.Chance(2, 5) {
+		switch r.Pick(3, 4, 3, 3) {
+		case 0:
 			return c05ZStep{Op: "p", Q: true, W: "0"}
+		case 2:
+			return wasmx(false)
+		case 3:
+			return wasmx(true)
 		}
 		return c05ZStep{Op: "p", To: pickStr(r, "B", "B", "R", "S", "DIST", "FC"), W: pickStr(r, "1", "7", "60", "0", "3", "99999999999")}
 	}
@@ -825,7 +924,37 @@ func genC05Z(r *Rng) ([]c05ZStep, bool) {
 		}
 		return st
 	}
-	switch r.Pick(3, 2, 1, 4) {
+	reentry := func() []c05ZStep { // a dispatch the chain refuses, surrounded by transfers and followed by further bank sends
+		st := []c05ZStep{}
+		if r.Chance(1, 2) {
+			st = append(st, c05ZStep{Op: "t", To: pickStr(r, "B", "R"), W: amtWei()})
+		}
+		st = append(st, wasmx(true))
+		for i, n := 0, r.Range(0, 2); i < n; i++ {
+			if r.Chance(1, 2) {
+				st = append(st, wasmx(false))
+			} else {
+				st = append(st, c05ZStep{Op: "p", To: pickStr(r, "B", "R", "S"), W: pickStr(r, "1", "7", "50")})
+			}
+		}
+		if r.Chance(1, 2) {
+			st = append(st, c05ZStep{Op: "t", To: pickStr(r, "B", "R"), W: amtWei()})
+		}
+		return st
+	}
+	switch r.Pick(3, 2, 1, 4, 4) {
+	case 4: // Wasm.execute whose contract dispatches MsgConvertCoinToEvm: kept / in a reverted frame / in a reverted tx
+		switch r.Pick(2, 2, 1) {
+		case 0:
+			return reentry(), false
+		case 1:
+			steps := []c05ZStep{{Op: "f", Body: reentry(), Rev: true}}
+			if r.Chance(1, 2) {
+				steps = append(steps, gen(1)...)
+			}
+			return steps, false
+		}
+		return reentry(), true
 	case 0: // inside a frame that reverts, in a tx that goes on
 		steps := []c05ZStep{}
 		if r.Chance(1, 2) {
@@ -985,6 +1114,17 @@ func TestC05(t *testing.T) {
 	run(c05Case{Fund: "1000000000000", RBal: "0", Txs: []c05Tx{
 		ztx(false, zf(true, zt("B", "2000000000005"), zt("DIST", "3000000000000"), zq, zsend("S", "3")), zf(true, zsend("B", "5"), zt("DIST", "999999999999"), zq)),
 		ztx(false, zsend("B", "7"), zf(false, zf(true, zt("DIST", "1000000000000000000"), zsend("DIST", "1")), zt("R", "999999999999")), zq)}})
+	// … the Wasm precompile: execute(RW, …) with funds, bank sends dispatched by the wasm contract, and a dispatched
+	// MsgConvertCoinToEvm of unibi (refused inside a running EVM tx): plain, followed by further bank sends of the same
+	// tx, inside a sub-call that reverts, in a tx that reverts
+	zw := func(funds, conv string, sends ...c05ZStep) c05ZStep { return c05ZStep{Op: "w", Funds: funds, Conv: conv, Sends: sends} }
+	ws := func(to, amt string) c05ZStep { return c05ZStep{To: to, W: amt} }
+	run(c05Case{Fund: "1000000000000", RBal: "0", Txs: []c05Tx{
+		ztx(false, zw("40", "", ws("B", "7"), ws("Z", "30"))),
+		ztx(false, zt("B", "5000000000000"), zw("0", "100"), zt("R", "1000000000000")),
+		ztx(false, zw("0", "100"), zw("50", "", ws("S", "1"))),
+		ztx(false, zf(true, zt("B", "5000000000000"), zw("0", "100"), zt("R", "1000000000000")), zsend("B", "3")),
+		ztx(true, zt("B", "5000000000000"), zw("5", "100", ws("R", "7")))}})
 	// … one Cosmos tx bundling messages of different signers (each pays for its own gas) and of one signer
 	sub := func(signer int, gm string, gasadd int, gp, value, target string, mode int, w string) c05Tx {
 		return c05Tx{Signer: signer, Ty: 0, GasMode: gm, GasAdd: gasadd, Gp: gp, Tip: "0", Cap: "0", Value: value, Target: target, Mode: mode, W: w}
